@@ -10,21 +10,23 @@ import logging
 
 ID = "C17"
 PROP_FILE = "Props/C17.v"
-THEOREMS = ["C17_start_precedence", "C17_rejecting_validator_prevents_start", "C17_md_frame",
+THEOREMS = ["C17_start_precedence", "C17_rejecting_validator_prevents_start", "C17_open_twice_consumes_nothing", "C17_md_frame",
             "C17_scan_id_consecutive", "C17_a_refuted"]
 COQ_IMPORTS = "From BV Require Import Base.ChainMap Pure.Metadata."
 MODELLED = ("RunEngine._open_run lines 1853-1887 (scan_id_source before validation, ChainMap precedence, md_validator on "
-            "dict(md), md_normalizer on a deep copy, bundler registration) and the run-key-already-open check are modelled; "
+            "dict(md), md_normalizer on a deep copy, bundler registration), the run-key-already-open check (made before "
+            "scan_id_source is called) and several runs open at once under different run keys (msg.run) are modelled; "
             "collections.ChainMap is modelled as first-hit lookup over association lists; md_validator/md_normalizer/"
             "scan_id_source are arbitrary functions in the theorems (the normalizer sees the merged mapping, not the "
             "ChainMap object).  NOT modelled: RunBundler.open_run/event_model.compose_run after the normalizer (a metadata "
             "key 'uid'/'time' or metadata violating the RunStart schema makes compose_run raise after the bundler was "
-            "registered; the generator keeps such keys out), tracing spans, several run keys.")
+            "registered; the generator keeps such keys out), tracing spans.")
 RULE = ("exhaustive: every assignment of one key to the 4 sources x present/absent (16) x every history of <=3 opens with "
-        "accept/reject validators; random: 1-4 calls x 1-5 messages, overlapping dictionaries over 8 keys incl. scan_id/"
+        "accept/reject validators x every sequence of <=4 open/close messages over 2 run keys (nested/interleaved runs, "
+        "open on an open key, close on a closed key); random: 1-4 calls x 1-6 messages with run keys from {default, A, B, C}, overlapping dictionaries over 8 keys incl. scan_id/"
         "plan_name/plan_type/sample, 6 validators, 7 normalizers, 5 scan_id sources (sync/async); malformed: open while "
         "open, close while closed, non-integer scan_id in RE.md. non-trivial = a RunStart whose metadata has a key present "
-        "in >= 2 sources, or a history with >= 2 opened runs")
+        "in >= 2 sources, or a history with >= 2 opened runs, or two runs open at once")
 
 RESERVED = {"scan_id": 0, "plan_type": 1, "plan_name": 2, "sample": 3}
 FREE_KEYS = ["a", "b", "c", "d"]
@@ -87,11 +89,13 @@ def _rand_case(rng, default_src_only):
             hooks["s"] = rng.choice([["default"], ["async_default"]])
         bad_ok = hooks["v"] == ["default"]
         ops = []
-        for _ in range(rng.randint(1, 5)):
+        multi = rng.random() < 0.6
+        for _ in range(rng.randint(1, 6 if multi else 5)):
+            key = rng.choice([None, "A", "B", "C"]) if multi else None
             if rng.random() < 0.6:
-                ops.append(["open", _rand_kw(rng, bad_ok)])
+                ops.append(["open", _rand_kw(rng, bad_ok)] + ([key] if key is not None else []))
             else:
-                ops.append(["close"])
+                ops.append(["close"] + ([key] if key is not None else []))
         plan = {"kind": rng.choice(["gen", "gen", "obj"]), "name": rng.choice(["p1", "my_plan", None])}
         calls.append({"hooks": hooks, "kw": _rand_kw(rng, bad_ok), "plan": plan, "ops": ops})
     return {"md0": md0, "calls": calls, "fresh": rng.random() < 0.03}
@@ -123,6 +127,15 @@ def _exhaustive():
                 else:
                     calls = [{"hooks": hooks, "kw": [], "plan": {"kind": "gen", "name": "p1"}, "ops": ops}]
                 out.append({"md0": [], "calls": calls, "fresh": False})
+    # every sequence of <= 4 open/close messages over two run keys (default source, default hooks)
+    moves = [["open", [], "A"], ["open", [], "B"], ["close", "A"], ["close", "B"]]
+    for n in range(2, 5):
+        for seq in itertools.product(moves, repeat=n):
+            if not any(m[0] == "open" for m in seq):
+                continue
+            out.append({"md0": [["scan_id", 10]], "fresh": False, "calls": [
+                {"hooks": dflt, "kw": [], "plan": {"kind": "gen", "name": "p1"}, "ops": [list(m) for m in seq]},
+                {"hooks": dflt, "kw": [], "plan": {"kind": "gen", "name": "p1"}, "ops": [["open", []]]}]})
     return out
 
 
@@ -252,6 +265,12 @@ def _engine(fresh):
     return _RE["re"]
 
 
+def _op_key(op):
+    if op[0] == "open":
+        return op[2] if len(op) > 2 else None
+    return op[1] if len(op) > 1 else None
+
+
 def _classify(e):
     import traceback
     names = [fr.name for fr in traceback.extract_tb(e.__traceback__)]
@@ -272,6 +291,7 @@ def _classify(e):
 def impl(case):
     import bluesky.plan_stubs as bps
     import bluesky.run_engine as bre
+    from bluesky.utils import Msg
     RE = _engine(case.get("fresh", False))
     base = {"versions": RE.md.get("versions", {})} if "versions" in RE.md else {}
     RE.md = dict(base)
@@ -291,17 +311,24 @@ def impl(case):
                 for op in ops:
                     n0 = len(docs)
                     try:
+                        key = _op_key(op)
                         if op[0] == "open":
-                            yield from bps.open_run(md={k: v for k, v in op[1]})
+                            if key is None:
+                                yield from bps.open_run(md={k: v for k, v in op[1]})
+                            else:
+                                yield Msg("open_run", None, run=key, **{k: v for k, v in op[1]})
                             kind = "Started"
                         else:
-                            yield from bps.close_run()
+                            if key is None:
+                                yield from bps.close_run()
+                            else:
+                                yield Msg("close_run", None, run=key)
                             kind = "Closed"
                     except Exception as e:  # noqa: BLE001
                         kind = _classify(e)
                     new = docs[n0:]
                     step = {"kind": kind, "docs": [n for n, _ in new], "md": dict(RE.md),
-                            "open": len(RE._run_bundlers) > 0}
+                            "open_keys": list(RE._run_bundlers.keys())}
                     starts = [d for n, d in new if n == "start"]
                     if starts:
                         step["start"] = {k: v for k, v in starts[0].items() if k not in ("uid", "time")}
@@ -391,6 +418,10 @@ def _chooks(I, h):
     return "{| validator := %s; normalizer := %s; scan_src := %s |}" % (vt, nt, st)
 
 
+def _ckey(I, k):
+    return "None" if k is None else "(Some %s)" % I("key:" + str(k))
+
+
 def _plan_ident(call):
     ptype = "generator" if call["plan"]["kind"] == "gen" else "PlanObj"
     name = call["plan"]["name"]
@@ -401,7 +432,8 @@ def _plan_ident(call):
 
 def _ccall(I, call):
     ptype, name = _plan_ident(call)
-    ops = cl(call["ops"], lambda o: "Open %s" % _cdict(I, o[1]) if o[0] == "open" else "Close")
+    ops = cl(call["ops"], lambda o: "Open %s %s" % (_ckey(I, _op_key(o)), _cdict(I, o[1])) if o[0] == "open"
+             else "Close %s" % _ckey(I, _op_key(o)))
     return "{| c_hooks := %s; c_kw := %s; c_type := %s; c_name := %s; c_ops := %s |}" % (
         _chooks(I, call["hooks"]), _cdict(I, call["kw"]), I(ptype), I(name), ops)
 
@@ -431,7 +463,7 @@ def coq_term(case, obs):
                 if "start" in s:
                     return "false"
                 out = s["kind"]
-            steps.append("(%s, %s, %s)" % (out, _cdict(I, s["md"]), cb(s["open"])))
+            steps.append("(%s, %s, %s)" % (out, _cdict(I, s["md"]), cl(s["open_keys"], lambda k: _ckey(I, k))))
         segs.append(cl(steps))
     final_md = _cdict(I, obs["calls"][-1]["md_after"]) if obs["calls"] else md0
     t = "let md0 := %s in let cs := %s in hist_beq (do_calls md0 cs) (%s, %s)" % (md0, calls, final_md, cl(segs))
@@ -463,9 +495,11 @@ def _other_checks(case, obs):
         val = _py_validator(call["hooks"]["v"]) or bre._default_md_validator
         norm = _py_normalizer(call["hooks"]["n"]) or bre._default_md_normalizer
         ptype, pname = _plan_ident(call)
-        is_open = False
+        opens = []
         for si, (op, s) in enumerate(zip(call["ops"], oc["steps"])):
-            where = "call %d message %d (%s)" % (ci, si, op[0])
+            where = "call %d message %d (%s, run key %r)" % (ci, si, op[0], _op_key(op))
+            key = _op_key(op)
+            is_open = key in opens
             if s["kind"].startswith("Other:") or s["kind"].startswith("ComposeFailed"):
                 return where + ": unexpected exception " + s["kind"]
             # RE.md changes at scan_id only
@@ -485,7 +519,7 @@ def _other_checks(case, obs):
                 if not accepted:
                     if "start" in s or s["docs"]:
                         return where + ": the metadata validator rejects the merged metadata but documents were emitted: %r" % s["docs"]
-                    if s["open"]:
+                    if key in s["open_keys"]:
                         return where + ": the metadata validator rejected, yet a run is registered as open"
                     if s["kind"] != "RejectedV":
                         return where + ": validator rejects, outcome is " + s["kind"]
@@ -495,7 +529,7 @@ def _other_checks(case, obs):
                     except Exception:  # noqa: BLE001
                         expect = None
                     if expect is None:
-                        if "start" in s or s["docs"] or s["open"]:
+                        if "start" in s or s["docs"] or key in s["open_keys"]:
                             return where + ": the normalizer raised but a run was started"
                     else:
                         if "start" not in s:
@@ -508,12 +542,14 @@ def _other_checks(case, obs):
                 return where + ": open_run while a run is open gave " + s["kind"]
             if op[0] == "close" and s["kind"] != ("Closed" if is_open else "Illegal"):
                 return where + ": close_run gave " + s["kind"]
+            if op[0] == "open" and is_open and not _typed_eq(md_prev, s["md"]):
+                return where + ": open_run on an already open run key changed RE.md"
             if s["kind"] == "Started":
-                is_open = True
+                opens.append(key)
             elif s["kind"] == "Closed":
-                is_open = False
-            if s["open"] != is_open:
-                return where + ": run-open flag is %r, expected %r" % (s["open"], is_open)
+                opens.remove(key)
+            if sorted(map(str, s["open_keys"])) != sorted(map(str, opens)):
+                return where + ": open runs are %r, expected %r" % (s["open_keys"], opens)
             md_prev = s["md"]
         if not _typed_eq({k: v for k, v in md_prev.items()}, oc["md_after"]):
             return "call %d: RE.md changed after the last message" % ci
@@ -563,6 +599,8 @@ def nontrivial(case, obs):
                 for k in s.get("start", {}):
                     if sum(1 for m in srcs if k in m) >= 2:
                         return True
+    if any(len(s["open_keys"]) >= 2 for oc in obs["calls"] for s in oc["steps"]):
+        return True
     return started >= 2
 
 
@@ -573,8 +611,9 @@ def describe(case):
         for part in ("v", "n", "s"):
             if c["hooks"][part][0] not in ("default",):
                 hooks.add(part)
-    return "calls=%d msgs=%s custom=%s" % (len(case["calls"]), "1-3" if nops <= 3 else "4-8" if nops <= 8 else "9+",
-                                         "".join(sorted(hooks)) or "-")
+    keys = set(_op_key(o) for c in case["calls"] for o in c["ops"])
+    return "calls=%d msgs=%s custom=%s keys=%d" % (len(case["calls"]), "1-3" if nops <= 3 else "4-8" if nops <= 8 else "9+",
+                                                 "".join(sorted(hooks)) or "-", len(keys))
 
 
 def model_search(rng, tier):
